@@ -93,6 +93,21 @@ pub fn run(s: &mut Session, ctx: &Ctx) {
         if let Some(r) = ops::adj(s, "rotate", &base, Some(360.0 * big), true) {
             s.check(r.to_rgba() == base.to_rgba() && circ_dist(r.to_hsla().h, base.to_hsla().h) <= 1e-9, "whole-turn-identity", "Color::rotate_hue", || format!("{}.rotate_hue(360 * {:?})", show_color(&base), big), || format!("{:?} vs {:?}", r.to_hsla(), base.to_hsla()));
         }
+        // huge angles that are NOT whole turns: an integer-valued f64 is reduced exactly, so the stored hue
+        // reads back as that integer modulo 360 (computed here in 128-bit integers)
+        {
+            let m = rng.below(9_000_000_000) as i128 + 1;
+            let e = rng.below(20) as u32;
+            let v_int: i128 = m * 10i128.pow(e) * if rng.bool() { 1 } else { -1 };
+            let v = v_int as f64;
+            if (v as i128) == v_int {
+                let want = v_int.rem_euclid(360) as f64;
+                let got = Color::from_hsla(v, 1.0, 0.5, 1.0);
+                s.check(circ_dist(got.to_hsla().h, want) <= 1e-9, "huge-angle-reduced-exactly", "Color::from_hsla", || format!("from_hsla({:?}, 1, 0.5, 1)", v), || format!("hue {:?}, {} mod 360 = {:?}", got.to_hsla().h, v_int, want));
+                let rot = Color::from_hsla(0.0, 1.0, 0.5, 1.0).rotate_hue(v);
+                s.check(circ_dist(rot.to_hsla().h, want) <= 1e-9, "huge-angle-reduced-exactly", "Color::rotate_hue", || format!("red.rotate_hue({:?})", v), || format!("hue {:?}, {} mod 360 = {:?}", rot.to_hsla().h, v_int, want));
+            }
+        }
         // complement is a self-inverse half turn
         if let Some(cc) = ops::adj(s, "complement", &base, None, true) {
             let h1 = cc.to_hsla();
